@@ -33,7 +33,7 @@ REQUIRED_CLASSES = ["byte-exhaustive", "foreign-char", "mixed-case", "ragged-wit
                     "view-input", "string-encoding", "retarget-history", "history-prefix-then-beyond", "history-encode-edit-encode-again", "foreign-char-beyond-one-byte",
                     "list-of-rows-in-several-encodings", "list-of-rows-same-letters-other-order", "list-of-rows-in-one-encoding",
                     "rows-in-offset-encodings", "kmer-of-fewer-than-four-letters", "kmer-of-four-letters", "kmer-of-more-than-four-letters",
-                    "kmer-arrays-over-two-alphabets"]
+                    "kmer-arrays-over-two-alphabets", "text-presented-to-an-encoding-twice", "text-presented-to-an-offset-encoding", "one-row-of-the-text-presented"]
 BOUNDS = {"quick": "(a) complete: 256 bytes x 10 encodings x 2 routes; (b) 1500 strings per alphabet; (c) all 90 ordered pairs x 150 strings; (d) 6000 histories; (e) 1500 row lists",
           "thorough": "(a) complete; (b) 15000 per alphabet; (c) all pairs x 1500 strings; (d) 240000 histories; (e) 15000 row lists"}
 BUDGET_S = {"quick": 150, "thorough": 900}
@@ -125,6 +125,13 @@ def classify(case):
         if case["rows"][0]["alpha"].startswith("num:"):
             cl.append("rows-in-offset-encodings")
             nontrivial = nontrivial or bool(case.get("target") and case["target"] != case["rows"][0]["alpha"])
+    elif kind == "present":
+        cl.append("text-presented-to-an-encoding-" + ("twice" if case["times"] >= 2 else "once"))
+        if case["dst"].startswith("num:"):
+            cl.append("text-presented-to-an-offset-encoding")
+        if case.get("row") is not None:
+            cl.append("one-row-of-the-text-presented")
+        nontrivial = case["times"] >= 2 or case.get("row") is not None
     elif kind == "kmer-mix":
         nontrivial = len({r["alpha"] for r in case["rows"]}) == 2
         cl.append("kmer-arrays-over-two-alphabets" if nontrivial else "kmer-arrays-over-one-alphabet")
@@ -305,6 +312,47 @@ def check(case, stats=None):
         if got != want:
             return [Failure("C06:list-of-encoded-rows-changes-text", {"rows": case["rows"], "target": case.get("target"), "result_text": got})]
         return []
+    if kind == "present":
+        # text that is already held in an (unlabelled, base) encoded array is presented to an encoding, perhaps several times, perhaps one row of
+        # it: the letters of the text stay what they were, every presentation gives the same codes, and every result decodes to the text
+        import numpy as np
+        from bionumpy.encoded_array import as_encoded_array, EncodedArray, BaseEncoding
+        rows, dst = case["rows"], enc_of(case["dst"])
+        numeric = case["dst"].startswith("num:")
+        if case["built"] == "list":
+            src = as_encoded_array(list(rows))
+        elif case["built"] == "flat":
+            src = EncodedArray(np.array([ord(c_) for c_ in "".join(rows)], dtype=np.uint8), BaseEncoding)
+        else:
+            src = as_encoded_array("".join(rows))
+        text = list(rows) if case["built"] == "list" else "".join(rows)
+        part, part_text = src, text
+        if case.get("row") is not None and case["built"] == "list":
+            part, part_text = src[case["row"] % len(rows)], rows[case["row"] % len(rows)]
+        results = []
+        try:
+            for t in range(case["times"]):
+                route = case["routes"][t % len(case["routes"])]
+                results.append(as_encoded_array(part, dst) if route == "as_encoded_array" else dst.encode(part))
+        except Exception:
+            if stats is not None:
+                stats.raised_allowed["present"] += 1
+            results = results
+        out = []
+        now = _decode_rows(src)
+        if now != text:
+            out.append(Failure("C06:presenting-text-to-an-encoding-changes-the-text", {"dst": case["dst"], "text": text, "text_afterwards": now, "built": case["built"]}))
+        want = part_text if numeric else ([r.upper() for r in part_text] if isinstance(part_text, list) else part_text.upper())
+        raws = []
+        for r in results:
+            got = _decode_rows(r) if hasattr(r, "encoding") else None
+            codes = r.raw() if hasattr(r, "raw") else r
+            raws.append(np.asarray(codes.ravel() if hasattr(codes, "ravel") else codes).ravel().tolist())
+            if got is not None and got != want and "".join(got) != "".join(want):
+                out.append(Failure("C06:presented-text-decodes-to-other-text", {"dst": case["dst"], "text": part_text, "decoded": got}))
+        if any(x != raws[0] for x in raws[1:]):
+            out.append(Failure("C06:same-text-presented-again-gives-other-codes", {"dst": case["dst"], "text": part_text, "codes": raws[:3]}))
+        return out[:1]
     if kind == "kmer-mix":
         # arrays of k-mers (same k) over two alphabets meeting in one operation: the words come back as they were, or the operation refuses
         from bionumpy.encodings.kmer_encodings import KmerEncoding
@@ -502,6 +550,26 @@ def labels_case(draw):
     return {"kind": "labels", "labels": labels, "query": query}
 
 
+@st.composite
+def present_case(draw):
+    dst = draw(st.sampled_from(list(ALPHABETS) + ["num:quality", "num:digit", "num:cigar"] * 3))
+    chars = NUMERIC_LETTERS if dst.startswith("num:") else mixed_case(ALPHABETS[dst])
+    built = draw(st.sampled_from(["list", "list", "flat", "str"]))
+    rows = [draw(st.text(alphabet=chars, min_size=0 if built == "list" else 1, max_size=8)) for _ in range(draw(st.integers(1, 4)))]
+    if all(r == "" for r in rows):
+        rows[0] = chars[0]
+    case = {"kind": "present", "dst": dst, "rows": rows, "built": built, "times": draw(st.integers(1, 3)),
+            "routes": draw(st.lists(st.sampled_from(["as_encoded_array", "encode"]), min_size=1, max_size=3))}
+    if built == "list" and draw(st.booleans()):
+        case["row"] = draw(st.integers(0, 3))
+    return case
+
+
+def task_present(stats, known_open, n, seed):
+    import sys
+    core.run_hypothesis(sys.modules[__name__], present_case(), stats, known_open, max_examples=n, seed=seed)
+
+
 def task_encode(stats, known_open, alpha, n, seed):
     import sys
     core.run_hypothesis(sys.modules[__name__], encode_case(alpha), stats, known_open, max_examples=n, seed=seed)
@@ -575,6 +643,7 @@ def tasks(tier, seed):
     out.append(("task_labels", dict(n=n_enc, seed=seed * 1000 + 999)))
     out.append(("task_rowlist", dict(n=n_enc, seed=seed * 1000 + 998)))
     out.append(("task_kmer_mix", dict(n=n_enc, seed=seed * 1000 + 997)))
+    out.append(("task_present", dict(n=n_enc, seed=seed * 1000 + 996)))
     for j in range(4 if tier == "quick" else 16):
         out.append(("task_history", dict(n=n_enc, seed=seed * 1000 + 800 + j)))
     return out
